@@ -541,6 +541,12 @@ for k, pr in enumerate(pairs):
     pi = Parser.parse({"PAIR%%d" %% k: parts})["PAIR%%d" %% k]
     for j, t in enumerate(parts):
         out.setdefault(t, []).append(hashlib.sha1(str(pi.asts[j]).encode()).hexdigest()[:12] if len(pi.asts) == len(parts) else "exc:" + (pi.exception.name if pi.exception else "trees"))
+# all texts as the parts of ONE instruction (dozens of parts), and of one with 11 parts: part j's tree is text j's tree
+good = [t for t in texts if not out[t][0].startswith("exc:")]
+for nm, parts in (("MANY", good), ("ELEVEN", good[:11][::-1])):
+    pi = Parser.parse({nm: list(parts)})[nm]
+    for j, t in enumerate(parts):
+        out[t].append(hashlib.sha1(str(pi.asts[j]).encode()).hexdigest()[:12] if len(pi.asts) == len(parts) else "exc:" + (pi.exception.name if pi.exception else "trees"))
 sys.stdout = so
 print(json.dumps(out))
 """
